@@ -18,11 +18,11 @@ type NonNil struct {
 func NewNonNil(p *Prog) *NonNil { return &NonNil{P: p, sentinel: map[*ssa.Global]bool{}} }
 
 var nonNilCtors = map[string]bool{
-	"errors.New":                     true,
-	"fmt.Errorf":                     true,
-	"github.com/pkg/errors.New":      true,
-	"github.com/pkg/errors.Errorf":   true,
-	"(context.Context).Err":          false, // may be nil before cancellation
+	"errors.New":                   true,
+	"fmt.Errorf":                   true,
+	"github.com/pkg/errors.New":    true,
+	"github.com/pkg/errors.Errorf": true,
+	"(context.Context).Err":        false, // may be nil before cancellation
 }
 
 // At reports whether v is known non-nil at instruction `at`.
